@@ -199,7 +199,14 @@ def rule_own_fields(ctx: Ctx, rep: Report) -> None:
     rule_own_fields_forwarded(ctx, rep, "C02.own_fields", ('btclib.ecc.dsa',), 6)
 
 
+def rule_params_forwarded_(ctx: Ctx, rep: Report) -> None:
+    """C02.params_forwarded: a parameter is handed on to callees that have a parameter of the same name (see sigcommon.rule_params_forwarded)."""
+    from rules.sigcommon import rule_params_forwarded
+    rule_params_forwarded(ctx, rep, "C02.params_forwarded", ('btclib.ecc.dsa', 'btclib.ecc.bms', 'btclib.ecc.rfc6979'), 60)
+
+
 RULES = [
+    ("C02.params_forwarded", rule_params_forwarded_),
     ("C02.own_fields", rule_own_fields),
     ("C02.dispatch_hf", rule_dispatch_hf),
     ("C02.signer_arm", rule_signer_arm),
